@@ -334,7 +334,20 @@ def pass_through(prog, rep) -> None:
         ps = [p for p in f.params if p != "self"]
         want = [p for p in ps if p != "controller"]
         got = [U(ff.resolved(si.stmt, a)) for a in calls[0].args]
-        rep.check(got == want and not calls[0].keywords, "trial-uses-given-step-size", f.qualname, short(si.stmt),
+        kw_ok = not calls[0].keywords
+        if calls[0].keywords:
+            # keyword spelling: order the arguments by the callee's parameters
+            tg = [t for t in prog.resolve_call_target(f, calls[0]) if isinstance(t, FuncInfo)]
+            if not tg:
+                base = prog.cls("pygradflow.step.step_control.StepController")
+                tg = [base.methods[callee_attr]] if callee_attr in base.methods else []
+            b_ = bind_args(tg[0], calls[0]) if tg else None
+            if b_ is not None:
+                cps = [p for p in tg[0].params if p != "self"]
+                if all(p in b_ and isinstance(b_[p], ast.AST) for p in cps[:len(want)]):
+                    got = [U(ff.resolved(si.stmt, b_[p])) for p in cps[:len(want)]]
+                    kw_ok = len(b_) >= len(want)
+        rep.check(got == want and kw_ok, "trial-uses-given-step-size", f.qualname, short(si.stmt),
                   f"{f.name} hands its own (iterate, rho, dt, display, timer) unchanged to {callee_attr} (found {got})", f.loc(calls[0]))
 
 
